@@ -287,6 +287,30 @@ def mk2():
                 bad = f"raised {type(ex2).__name__}: {ex2}"
             if bad:
                 rac.fail(f"two-environments {s2} {order}", f"C19 {s2!r} in two environments ({order}): {bad}", scr, "MadxEval")
+    rac.section("variable-redefined-after-use", "a variable y is DEFINED by a deferred expression, another deferred expression mentioning y is built afterwards, then y itself is "
+                "re-assigned through the manager (a number, then a new definition): the expression built earlier and a freshly parsed one both follow the CURRENT y "
+                "(wave 10, C19-20: the definition of y inlined at parse time)", "4 strings x 3 re-assignments")
+    for s3, py3 in [("((y)*(2))+(a)", lambda y, a, b: ((y) * (2)) + (a)), ("y", lambda y, a, b: y), ("(y)^(2)", lambda y, a, b: (y) ** (2)), ("sin(y)+(b)", lambda y, a, b: math.sin(y) + (b))]:
+        scr = PRELUDE + SRC + f"env = mkenv_fresh()\nenv._vref['y'] = env.madexpr('(a)*(3)')\nex = env.madexpr({s3!r})\n"
+        try:
+            env = mkenv_fresh()
+            env._vref["y"] = env.madexpr("(a)*(3)")
+            ex3 = env.madexpr(s3)
+            bad = None
+            for step, want_y in (("env._vref['y'] = 1.0", lambda a, b: 1.0), ("env._vref['a'] = 4.0", lambda a, b: 1.0), ("env._vref['y'] = env.madexpr('(b)-(a)')", lambda a, b: b - a)):
+                exec(step, dict(env=env))
+                a_, b_ = env._variables["a"], env._variables["b"]
+                want = py3(want_y(a_, b_), a_, b_)
+                got_old, got_new, imm = num(val(ex3)), num(val(env.madexpr(s3))), num(env.madeval(s3))
+                scr += step + f"\nvals = [num(val(ex)), num(val(env.madexpr({s3!r}))), num(env.madeval({s3!r}))]; print(vals); assert vals[0] == vals[1] == vals[2], vals\n"
+                rac.case((s3, step), sample=dict(string=s3, step=step))
+                if not (same(got_old, want) and same(got_new, want) and same(imm, want)):
+                    bad = f"after {step}: expression built earlier / deferred / immediate give {[got_old, got_new, imm]}, Python on the current values gives {want}"
+                    break
+        except Exception as ex9:      # noqa
+            bad = f"raised {type(ex9).__name__}: {ex9}"
+        if bad:
+            rac.fail(f"variable-redefined {s3}", f"C19 y = (a)*(3); {s3!r} built; {bad}", scr, "MadxEval.var")
     rac.section("precedence", "unparenthesised strings against the reading the grammar defines (rule nesting, left associativity, unary "
                 "sign binding tighter than ^)", "14 strings")
     for s, mirror in precedence_cases():
